@@ -91,6 +91,7 @@ def c19(tier, rng, seed):
     merge(r, three_way('C19', 'q19', P.message_type_cases(rng, tier), {'C19'}, 'first-byte x length x fill x shape'))
     merge(r, swept_three_way('C19', 'q19', P.message_type_sweeps(rng, tier), {'C19'}, 'first-byte-sweeps'))
     merge(r, three_way('C19', 'q19', P.line_length_cases(rng, tier), {'C19'}, 'line-lengths'))
+    merge(r, three_way('C19', 'q19', P.sentence_pairwise_cases(rng, tier), {'C19'}, 'sentence-pairs'))
     ex = explored('hist', tier)
     if ex: merge(r, three_way('C19', 'q19', ex, {'C19'}, 'explored-hist'))
     return r
